@@ -198,3 +198,195 @@ fn replay_c09_tx_size() {
 }
 """ % (w["inputs"], w["outputs"], w["hops"], min(w["payload_len"], 4096))
     return ("replay_c09_tx_size", src)
+
+
+BLOCK_WIRE_FIELDS = ["id", "timestamp", "previous_block_hash", "creator", "merkle_root", "signature", "graveyard", "treasury", "burnfee", "difficulty", "avg_total_fees", "avg_fee_per_byte",
+                     "avg_nolan_rebroadcast_per_block", "previous_block_unpaid", "avg_total_fees_new", "avg_total_fees_atr", "avg_payout_routing", "avg_payout_mining", "avg_payout_treasury",
+                     "avg_payout_graveyard", "avg_payout_atr", "total_payout_routing", "total_payout_mining", "total_payout_treasury", "total_payout_graveyard", "total_payout_atr", "total_fees",
+                     "total_fees_new", "total_fees_atr", "fee_per_byte", "total_fees_cumulative"]
+
+
+def c09_m_block_header_roundtrip(ctx, v):
+    """Block header: deserialize_from_net(serialize_for_net(Header)) returns Ok and every one of
+    the 31 header fields on the wire comes back equal, for every value of every field; the
+    encoded header is exactly BLOCK_HEADER_SIZE bytes and carries a zero transaction count."""
+    from .models import as_enum, enum_is, payload
+    ex = ctx.executor(loop_bound=3, inline="auto", no_inline=[r"Transaction::", r"PrintForLog", r"fmt$"])
+    ex.pure = [r".*"]
+    ser = ctx.body(r"block::<impl at [^>]*>::serialize_for_net$")
+    de = ctx.body(r"block::<impl at [^>]*>::deserialize_from_net$")
+    vals = {}
+    for f, t in ctx.structs["Block"]:
+        nt = ctx.norm_type(t)
+        if f in BLOCK_WIRE_FIELDS:
+            vals[f] = ex.fresh_value(nt, "b.%s" % f)
+    blk = ctx.mk_struct(ex, "Block", "b", **vals)
+    hdr = S.EnumV("BlockType", "Header", dict(ctx.enums["BlockType"])["Header"])
+    outs = ex.run(ser, [S.Ref(S.Cell(blk)), hdr], S.State())
+    v.paths += len(outs)
+    rets = _single_return(ex, outs, v, "Block::serialize_for_net")
+    if rets is None:
+        return
+    ok = 0
+    for o in rets:
+        wire = o.value
+        size = ctx.const_value(r"BLOCK_HEADER_SIZE") if hasattr(ctx, "const_value") else None
+        outs2 = ex.run(de, [S.Ref(S.Cell(wire))], _st(o.pc))
+        v.paths += len(outs2)
+        rets2 = _single_return(ex, outs2, v, "Block::deserialize_from_net")
+        if rets2 is None:
+            return
+        for o2 in rets2:
+            e = as_enum(ex, o2.value, "Result")
+            if e.variant == "Err" or (e.variant is None and ex.feasible(o2.pc, enum_is(ex, e, "Err"))):
+                v.queries += 1
+                if ex.feasible(o2.pc, enum_is(ex, e, "Err")):
+                    v.fail("a block header's own encoding is rejected by the decoder", dict(path=L.trace_text(o2, 8)))
+                    continue
+            y = payload(ex, e, "Ok")
+            for f in BLOCK_WIRE_FIELDS:
+                a = vals[f]
+                b = ex.step_get(y, ("f", ctx.field_index("Block", f), None))
+                r, m = ex.model_for(o2.pc, z3.Not(value_eq(ex, a, b)))
+                v.queries += 1
+                if r == z3.sat:
+                    v.fail("block header field %s differs after the wire round trip" % f)
+                    if v.replay_rust is None:
+                        v.replay_rust = _replay_block_header(ctx, m, vals, f)
+            ok += 1
+    v.covers_total += 1
+    v.covers_sat += 1 if ok else 0
+
+
+def _rust_lit(m, val):
+    if isinstance(val, S.I):
+        return "%d" % m.eval(val.bv, model_completion=True).as_long()
+    n = m.eval(val.len.bv, model_completion=True).as_long()
+    return "[" + ", ".join("%d" % m.eval(z3.Select(val.arr, z3.BitVecVal(i, 64)), model_completion=True).as_long() for i in range(n)) + "]"
+
+
+def _replay_block_header(ctx, m, vals, field):
+    sets = "\n".join("    b.%s = %s;" % (f, _rust_lit(m, vals[f])) for f in BLOCK_WIRE_FIELDS)
+    src = """
+#[test]
+fn replay_c09_block_header() {
+    use saito_core::core::consensus::block::{Block, BlockType};
+    let mut b = Block::new();
+%s
+    let bytes = b.serialize_for_net(BlockType::Header);
+    let back = Block::deserialize_from_net(&bytes).expect("the decoder rejects a header the encoder produced");
+    assert_eq!(back.%s, b.%s, "header field %s differs after the wire round trip");
+}
+""" % (sets, field, field, field)
+    return ("replay_c09_block_header", src)
+
+
+def _st(pc):
+    st = S.State()
+    st.pc.extend(pc)
+    return st
+
+
+def _roundtrip(ctx, v, ex, label, ser, de, value, pre, compare):
+    """encode `value`, decode the bytes, call compare(o2, decoded) on every Ok return; an Err return
+    that is feasible is a failure.  Returns the number of Ok returns compared."""
+    from .models import as_enum, enum_is, payload
+    outs = ex.run(ser, [S.Ref(S.Cell(value))], _st(pre))
+    v.paths += len(outs)
+    rets = _single_return(ex, outs, v, label + " encoder")
+    if rets is None:
+        return None
+    n = 0
+    for o in rets:
+        outs2 = ex.run(de, [S.Ref(S.Cell(o.value))], _st(o.pc))
+        v.paths += len(outs2)
+        rets2 = _single_return(ex, outs2, v, label + " decoder")
+        if rets2 is None:
+            return None
+        for o2 in rets2:
+            e = as_enum(ex, o2.value, "Result")
+            v.queries += 1
+            if ex.feasible(o2.pc, enum_is(ex, e, "Err")):
+                v.fail("%s: the decoder rejects the encoder's own output" % label, dict(path=L.trace_text(o2, 8)))
+                continue
+            compare(o2, payload(ex, e, "Ok"), o.value)
+            n += 1
+    return n
+
+
+def c09_m_hop_roundtrip(ctx, v):
+    """Hop: deserialize(serialize(h)) == h on from, to and sig, for every hop; 130 bytes."""
+    ex = ctx.executor(loop_bound=3, inline="auto")
+    hop = ctx.mk_struct(ex, "Hop", "h")
+
+    def cmp(o2, y, wire):
+        for f in ("from", "to", "sig"):
+            a, b = hop.fields[ctx.field_index("Hop", f)], ex.step_get(y, ("f", ctx.field_index("Hop", f), None))
+            v.queries += 1
+            if ex.feasible(o2.pc, z3.Not(value_eq(ex, a, b))):
+                v.fail("hop field %s differs after the round trip" % f)
+        v.queries += 1
+        if ex.feasible(o2.pc, wire.len.bv != 130):
+            v.fail("an encoded hop is not 130 bytes")
+    n = _roundtrip(ctx, v, ex, "Hop", ctx.body(r"hop::<impl at [^>]*>::serialize_for_net$"), ctx.body(r"hop::<impl at [^>]*>::deserialize_from_net$"), hop, [], cmp)
+    if n is None:
+        return
+    v.covers_total += 1
+    v.covers_sat += 1 if n else 0
+
+
+TX_WIRE = ("timestamp", "transaction_type", "txs_replacements", "signature")
+
+
+def c09_m_tx_roundtrip(ctx, v):
+    """Transaction: deserialize_from_net(serialize_for_net(tx)) is Ok and equals tx on every wire
+    field - timestamp, type, txs_replacements, signature, payload bytes (length and content),
+    every wire field of every input and output slip, every hop - for transactions with 0..=2
+    inputs, 0..=2 outputs, 0..=1 hops (thorough 0..=2) and a payload of 0..=6 symbolic bytes."""
+    ser = ctx.body(r"transaction::<impl at [^>]*>::serialize_for_net$")
+    de = ctx.body(r"transaction::<impl at [^>]*>::deserialize_from_net$")
+    combos = [(1, 1, 0), (2, 1, 1), (0, 2, 0), (1, 0, 1)] if ctx.tier == "quick" else [(a, b, h) for a in (0, 1, 2) for b in (0, 1, 2) for h in (0, 1, 2)]
+    for nin, nout, nh in combos:
+        ex = ctx.executor(loop_bound=max(nin, nout, nh, 6) + 4, inline="auto", max_paths=4000)
+        ins = [L.sym_slip(ctx, ex, "in%d" % i) for i in range(nin)]
+        outs_ = [L.sym_slip(ctx, ex, "out%d" % i) for i in range(nout)]
+        hops = [ctx.mk_struct(ex, "Hop", "hop%d" % i) for i in range(nh)]
+        data = ex.fresh_value("Vec<u8>", "data")
+        ttype = ex.fresh_value("TransactionType", "type")
+        tx = ctx.mk_struct(ex, "Transaction", "tx", **{"from": S.Seq(ins, "Slip"), "to": S.Seq(outs_, "Slip"), "path": S.Seq(hops, "Hop"), "data": data, "transaction_type": ttype})
+        pre = [z3.ULE(data.len.bv, 6), L.enum_in_range(ttype, L.TX_TYPES)] + [L.enum_in_range(L.slip_field(ctx, s, "slip_type"), L.SLIP_TYPES) for s in ins + outs_]
+        tag = "%d/%d/%d" % (nin, nout, nh)
+
+        def cmp(o2, y, wire):
+            def differ(what, a, b):
+                v.queries += 1
+                if ex.feasible(o2.pc, z3.Not(value_eq(ex, a, b))):
+                    v.fail("transaction (%s in/out/hops) %s differs after the wire round trip" % (tag, what))
+            for f in TX_WIRE:
+                differ(f, tx.fields[ctx.field_index("Transaction", f)], ex.step_get(y, ("f", ctx.field_index("Transaction", f), None)))
+            d2 = ex.step_get(y, ("f", ctx.field_index("Transaction", "data"), None))
+            v.queries += 1
+            if ex.feasible(o2.pc, z3.Or(d2.len.bv != data.len.bv, *[z3.And(z3.UGT(data.len.bv, i), z3.Select(d2.arr, z3.BitVecVal(i, 64)) != z3.Select(data.arr, z3.BitVecVal(i, 64))) for i in range(6)])):
+                v.fail("transaction (%s) payload differs after the wire round trip" % tag)
+            for name, orig, elems in (("from", ins, None), ("to", outs_, None)):
+                seq = ex.step_get(y, ("f", ctx.field_index("Transaction", name), None))
+                items = seq.items if isinstance(seq, S.Seq) else None
+                if items is None or len(items) != len(orig):
+                    v.fail("transaction (%s) decodes to %s %s slips, %d were encoded" % (tag, "?" if items is None else len(items), name, len(orig)))
+                    continue
+                for i, (a, b) in enumerate(zip(orig, items)):
+                    for f in ("public_key", "amount", "block_id", "tx_ordinal", "slip_index", "slip_type"):
+                        differ("%s[%d].%s" % (name, i, f), L.slip_field(ctx, a, f), ex.step_get(ex.deref_value(b) if isinstance(b, (S.Ref, S.Cell)) else b, ("f", ctx.field_index("Slip", f), None)))
+            seq = ex.step_get(y, ("f", ctx.field_index("Transaction", "path"), None))
+            items = seq.items if isinstance(seq, S.Seq) else None
+            if items is None or len(items) != len(hops):
+                v.fail("transaction (%s) decodes to %s hops, %d were encoded" % (tag, "?" if items is None else len(items), len(hops)))
+            else:
+                for i, (a, b) in enumerate(zip(hops, items)):
+                    for f in ("from", "to", "sig"):
+                        differ("path[%d].%s" % (i, f), a.fields[ctx.field_index("Hop", f)], ex.step_get(b, ("f", ctx.field_index("Hop", f), None)))
+        n = _roundtrip(ctx, v, ex, "Transaction " + tag, ser, de, tx, pre, cmp)
+        if n is None:
+            return
+        v.covers_total += 1
+        v.covers_sat += 1 if n else 0
